@@ -59,6 +59,19 @@ func main() {
 		}
 		return
 	}
+	if prop == "nasdump" {
+		prog, err := core.Load(core.RepoDir(), "")
+		if err != nil {
+			fmt.Println(err)
+			os.Exit(2)
+		}
+		if tier == "gen" {
+			rules.GenStdTable(core.NewCtx("C09", "quick", prog))
+			return
+		}
+		rules.DumpNasModel(core.NewCtx("C08", "quick", prog))
+		return
+	}
 	if prop == "mutants" {
 		// developer entry: run only the checker self-test of one property
 		self, _ := os.Executable()
